@@ -1,9 +1,374 @@
+/-
+  C11 driver: answers the request lines of harness stream "c11" from the model
+  PolyVerif/Model/Nodes.lean (core Lean only).
+
+  Request   `c11.hist N <node>*N M <op>*M`
+     node := `P v` | `Q v`  (parameter, initial value v)
+           | `S salt ns sc*ns na (len id*len)*na`      sc := `-` | id
+     op   := `sp p v` | `si i k src` (src `-` | id) | `aa i a src` | `ar i a idx` | `rd i`
+  Answer: blank-joined concatenation over the ops of the block
+     `ok|panic [r v1 v2] v <N cached> n <N versions> s <N states> x k ids y k2 ids |`
+  computed by folding `PolyVerif.Nodes.step?` (V := Nat) over the ops; `rd` = two consecutive reads.
+
+  Oracle lines `c11.holds.<clause> <same request> @ <the implementation's answer>` evaluate the
+  clause on the implementation's observations; `c11.holds.deporder <wiring> @ reps k names…`.
+-/
 import Driver.Proto
+import PolyVerif.Model.Nodes
 
 namespace Driver.C11
+open PolyVerif.Nodes
+
+/-! ### the concrete `Process()` of every struct node of the harness -/
+
+def M : Nat := 2147483647
+
+def mixScalars (h : Nat) : List (Option Nat) → List Nat → Nat × List Nat
+  | [], vs => (h, vs)
+  | none :: ps, vs => mixScalars ((h * 31 + 7) % M) ps vs
+  | some _ :: ps, v :: vs => mixScalars ((h * 31 + 11 + v) % M) ps vs
+  | some _ :: ps, [] => mixScalars ((h * 31 + 11) % M) ps []
+
+def mixElems (h : Nat) : Nat → List Nat → Nat × List Nat
+  | 0, vs => (h, vs)
+  | n+1, v :: vs => mixElems ((h * 31 + 13 + v) % M) n vs
+  | n+1, [] => mixElems ((h * 31 + 13) % M) n []
+
+def mixArrays (h : Nat) : List (List Nat) → List Nat → Nat
+  | [], _ => h
+  | a :: as, vs =>
+    let r := mixElems ((h * 37 + 5 + a.length) % M) a.length vs
+    mixArrays r.1 as r.2
+
+/-- `mix(salt, shape, values)`: walks the scalar ports consuming one value per connected port,
+    then the arrays consuming `len` values each -/
+def mix (salt : Nat) (sc : List (Option Nat)) (ar : List (List Nat)) (vs : List Nat) : Nat :=
+  let r := mixScalars salt sc vs
+  mixArrays r.1 ar r.2
+
+/-! ### parsing -/
+
+abbrev P := StateT (List String) Option
+
+def tok : P String := fun ts => match ts with
+  | [] => none
+  | t :: r => some (t, r)
+
+def pNat : P Nat := do
+  let t ← tok
+  match t.toNat? with
+  | some n => pure n
+  | none => failure
+
+def pOptNat : P (Option Nat) := do
+  let t ← tok
+  if t == "-" then pure none else
+  match t.toNat? with
+  | some n => pure (some n)
+  | none => failure
+
+def rep {α : Type} (p : P α) : Nat → P (List α)
+  | 0 => pure []
+  | n+1 => do let a ← p; let r ← rep p n; pure (a :: r)
+
+def pList {α : Type} (p : P α) : P (List α) := do let n ← pNat; rep p n
+
+def expect (s : String) : P Unit := do let t ← tok; if t == s then pure () else failure
+
+def pWiring : P (List (Option Nat) × List (List Nat)) := do
+  let sc ← pList pOptNat
+  let ar ← pList (pList pNat)
+  pure (sc, ar)
+
+def pNode : P (Node Nat) := do
+  let t ← tok
+  if t == "P" || t == "Q" then
+    let v ← pNat
+    pure (.param v 0)
+  else if t == "S" then
+    let salt ← pNat
+    let w ← pWiring
+    pure (.struct { fn := mix salt, scalars := w.1, arrays := w.2, cache := 0, version := 0,
+                    remembered := none, flag := false })
+  else failure
+
+def pOp : P (Op Nat) := do
+  let t ← tok
+  match t with
+  | "sp" => do let p ← pNat; let v ← pNat; pure (.setParam p v)
+  | "si" => do let i ← pNat; let k ← pNat; let s ← pOptNat; pure (.setInput i k s)
+  | "aa" => do let i ← pNat; let a ← pNat; let s ← pNat; pure (.arrayAdd i a s)
+  | "ar" => do let i ← pNat; let a ← pNat; let x ← pNat; pure (.arrayRemove i a x)
+  | "rd" => do let i ← pNat; pure (.read i)
+  | _ => failure
+
+structure Case where
+  nodes : Array (Node Nat)
+  ops : List (Op Nat)
+
+def pCase : P Case := do
+  let ns ← pList pNode
+  let ops ← pList pOp
+  pure { nodes := ns.toArray, ops := ops }
+
+/-- one observation block of the implementation's answer -/
+structure Block where
+  ok : Bool
+  r : Option (Nat × Nat)
+  v : Array Nat
+  n : Array Nat
+  s : Array Nat
+  x : List Nat
+  y : List Nat
+
+def pBlock (N : Nat) : P Block := do
+  let st ← tok
+  let ok ← (if st == "ok" then pure true else if st == "panic" then pure false else failure : P Bool)
+  let t ← tok
+  let r ← (if t == "r" then do
+              let a ← pNat; let b ← pNat; expect "v"; pure (some (a, b))
+           else if t == "v" then pure none else failure : P (Option (Nat × Nat)))
+  let v ← rep pNat N
+  expect "n"; let n ← rep pNat N
+  expect "s"; let s ← rep pNat N
+  expect "x"; let x ← pList pNat
+  expect "y"; let y ← pList pNat
+  expect "|"
+  pure { ok := ok, r := r, v := v.toArray, n := n.toArray, s := s.toArray, x := x, y := y }
+
+/-! ### the model graph as a table -/
+
+/-- the graph function of a table (padding: parameter nodes) -/
+def ofArr (arr : Array (Node Nat)) : Graph Nat := fun j => arr[j]?.getD (.param 0 0)
+
+/-- re-tabulate a graph function (keeps lookups O(1) after a chain of `Graph.set`) -/
+def toArr (N : Nat) (g : Graph Nat) : Array (Node Nat) := Array.ofFn (n := N) fun j => g j.val
+
+def natsStr (l : List Nat) : String := " ".intercalate (l.map toString)
+
+def idsStr (tag : String) (l : List Nat) : String :=
+  if l.isEmpty then s!"{tag} 0" else s!"{tag} {l.length} {natsStr l}"
+
+def observe (arr : Array (Node Nat)) : String :=
+  let g := ofArr arr
+  let js := List.range arr.size
+  s!"v {natsStr (js.map (val g))} n {natsStr (js.map (ver g))} s {natsStr (js.map fun j => if Outdated g j then 0 else 1)}"
+
+/-- one op on the model: new table and the block printed for it -/
+def stepBlock (arr : Array (Node Nat)) (op : Op Nat) : Array (Node Nat) × String :=
+  let N := arr.size
+  match op with
+  | .read i =>
+    match step? (ofArr arr) (.read i) with
+    | none => (arr, s!"panic {observe arr} x 0 y 0 |")
+    | some (g1, l1) =>
+      let a1 := toArr N g1
+      let v1 := val (ofArr a1) i
+      match step? (ofArr a1) (.read i) with
+      | none => (arr, s!"panic {observe arr} x 0 y 0 |")
+      | some (g2, l2) =>
+        let a2 := toArr N g2
+        let v2 := val (ofArr a2) i
+        (a2, s!"ok r {v1} {v2} {observe a2} {idsStr "x" (l1.map (·.1))} {idsStr "y" (l2.map (·.1))} |")
+  | op =>
+    match step? (ofArr arr) op with
+    | none => (arr, s!"panic {observe arr} x 0 y 0 |")
+    | some (g1, _) =>
+      let a1 := toArr N g1
+      (a1, s!"ok {observe a1} x 0 y 0 |")
+
+def runHist (c : Case) : String :=
+  let r := c.ops.foldl (fun (acc : Array (Node Nat) × List String) op =>
+    let r := stepBlock acc.1 op
+    (r.1, r.2 :: acc.2)) (c.nodes, [])
+  " ".intercalate r.2.reverse
+
+/-! ### oracles -/
+
+def isRead : Op Nat → Option Nat
+  | .read i => some i
+  | _ => none
+
+/-- number of dependency paths below each node (= cost of `evalSpec` without memo) -/
+def pathCosts (arr : Array (Node Nat)) : Array Nat :=
+  arr.foldl (fun cost n =>
+    match n with
+    | .param _ _ => cost.push 1
+    | .struct s => cost.push (1 + (s.deps.map fun d => cost[d]?.getD 1).sum)) #[]
+
+/-- `Spec g j` for every node.  `PolyVerif.Nodes.Spec` re-evaluates shared subgraphs once per path.
+    The harness keeps the total number of dependency paths of a graph ≤ 1500 (the real `Outdated()`
+    walks every path too), so with `specLim = 2000` every entry is a literal call of `Spec`; the
+    other branch (the node's `fn` applied to the table entries of its dependencies, all of smaller
+    id) only keeps the driver responsive on a hand-written replay line with a huge path count. -/
+def specTable (lim : Nat) (arr : Array (Node Nat)) : Array Nat :=
+  let g := ofArr arr
+  let cost := pathCosts arr
+  (List.range arr.size).foldl (fun tab j =>
+    match g j with
+    | .struct s =>
+      if cost[j]?.getD 0 ≤ lim then tab.push (Spec g j)
+      else tab.push (s.fn s.scalars s.arrays (s.deps.map fun d => tab[d]?.getD 0))
+    | .param x _ => tab.push x) #[]
+
+def specLim : Nat := 2000
+
+/-- clause "never stale": every read returns `Spec` of the graph as wired at that moment, and
+    every node the implementation reports as `Processed` holds `Spec` in its cache -/
+def holdsFresh (c : Case) (bs : List Block) : Bool :=
+  let N := c.nodes.size
+  let rec go (gw : Array (Node Nat)) (sp : Array Nat) : List (Op Nat) → List Block → Bool
+    | [], [] => true
+    | op :: ops, b :: bs =>
+      let shape := b.v.size == N && b.s.size == N
+      match isRead op with
+      | some i =>
+        let okRead := b.ok && (match b.r with
+          | some (v1, v2) => i < N && v1 == sp[i]?.getD 0 && v2 == sp[i]?.getD 0
+          | none => false)
+        shape && okRead && cached sp b && go gw sp ops bs
+      | none =>
+        if b.ok then
+          match step? (ofArr gw) op with
+          | some (g1, _) =>
+            let gw1 := toArr N g1
+            let sp1 := specTable specLim gw1
+            shape && cached sp1 b && go gw1 sp1 ops bs
+          | none => false          -- implementation accepted a call the model rejects
+        else shape && cached sp b && go gw sp ops bs
+    | _, _ => false
+  go c.nodes (specTable specLim c.nodes) c.ops bs
+where
+  cached (sp : Array Nat) (b : Block) : Bool :=
+    (List.range b.s.size).all fun j => b.s[j]?.getD 0 != 1 || b.v[j]?.getD 0 == sp[j]?.getD 1
+
+/-- `k` is in the dependency cone of `j` (reflexive-transitive), fuel `j+1` suffices under WF -/
+def inCone (g : Graph Nat) : Nat → Nat → Nat → Bool
+  | 0, j, k => j == k
+  | f+1, j, k => j == k ||
+    match g j with
+    | .struct s => s.deps.any fun d => inCone g f d k
+    | .param _ _ => false
+
+def isStruct (arr : Array (Node Nat)) (j : Nat) : Bool :=
+  match arr[j]? with
+  | some (.struct _) => true
+  | _ => false
+
+def noDup : List Nat → Bool
+  | [] => true
+  | a :: l => !l.contains a && noDup l
+
+/-- clause "recompute only on change": the second of two consecutive reads executes nothing; the
+    first executes only nodes that are dirty = never executed, or downstream of a parameter /
+    wiring change since their last execution; nothing is executed twice in one read -/
+def holdsNoSpurious (c : Case) (bs : List Block) : Bool :=
+  let N := c.nodes.size
+  let rec go (gw : Array (Node Nat)) (dirty : List Nat) : List (Op Nat) → List Block → Bool
+    | [], [] => true
+    | op :: ops, b :: bs =>
+      match op with
+      | .read _ =>
+        b.y.isEmpty && b.x.all (dirty.contains ·) && noDup b.x &&
+          go gw (dirty.filter (!b.x.contains ·)) ops bs
+      | .setParam p _ =>
+        let quiet := b.x.isEmpty && b.y.isEmpty
+        if b.ok then
+          match step? (ofArr gw) op with
+          | some (g1, _) =>
+            let gw1 := toArr N g1
+            let add := (List.range N).filter fun j => isStruct gw1 j && inCone (ofArr gw1) (j+1) j p
+            quiet && go gw1 (dirty ++ add.filter (!dirty.contains ·)) ops bs
+          | none => false
+        else quiet && go gw dirty ops bs
+      | op =>
+        let k := match op with
+          | .setInput i _ _ => i
+          | .arrayAdd i _ _ => i
+          | .arrayRemove i _ _ => i
+          | _ => 0
+        let quiet := b.x.isEmpty && b.y.isEmpty
+        if b.ok then
+          match step? (ofArr gw) op with
+          | some (g1, _) =>
+            let gw1 := toArr N g1
+            let add := (List.range N).filter fun j => isStruct gw1 j && inCone (ofArr gw1) (j+1) j k
+            quiet && go gw1 (dirty ++ add.filter (!dirty.contains ·)) ops bs
+          | none => false
+        else quiet && go gw dirty ops bs
+    | _, _ => false
+  go c.nodes ((List.range N).filter (isStruct c.nodes)) c.ops bs
+
+/-- clause "version +1 per execution": version_after j = version_before j + #executions of j
+    during the op (+1 for an accepted `sp j _`) -/
+def holdsVersion (c : Case) (bs : List Block) : Bool :=
+  let N := c.nodes.size
+  let rec go (before : Array Nat) : List (Op Nat) → List Block → Bool
+    | [], [] => true
+    | op :: ops, b :: bs =>
+      let bump (j : Nat) : Nat := match op with
+        | .setParam p _ => if b.ok && p == j then 1 else 0
+        | _ => 0
+      b.n.size == N &&
+      ((List.range N).all fun j =>
+        b.n[j]?.getD 0 == before[j]?.getD 0 + b.x.count j + b.y.count j + bump j) &&
+      go b.n ops bs
+    | _, _ => false
+  go (Array.replicate N 0) c.ops bs
+
+def portNames : List String := ["A", "B", "C", "D", "E", "F"]
+def arrNames : List String := ["Xs", "Ys", "Zs", "Ws"]
+
+/-- the model's `Dependencies()` order as port names: connected scalar ports in port order, then
+    the arrays in port order, each by index -/
+def depNames (sc : List (Option Nat)) (ar : List (List Nat)) : List String :=
+  ((sc.zip portNames).filterMap fun (p, nm) => p.map fun _ => nm) ++
+  ((ar.zip arrNames).map fun (a, nm) => (List.range a.length).map fun e => s!"{nm}.{e}").flatten
+
+def chunks {α : Type} (k : Nat) : Nat → List α → List (List α)
+  | 0, _ => []
+  | n+1, l => l.take k :: chunks k n (l.drop k)
+
+def holdsDepOrder : P Bool := do
+  let w ← pWiring
+  expect "@"
+  let reps ← pNat
+  let k ← pNat
+  let names ← get
+  let want := depNames w.1 w.2
+  -- the scalar part must agree with the model's `SNode.deps` (same filter on the same list)
+  let s : SNode Nat := { fn := fun _ _ _ => 0, scalars := w.1, arrays := w.2, cache := 0,
+                         version := 0, remembered := none, flag := false }
+  pure (reps > 0 && k == want.length && s.deps.length == want.length && names.length == reps * k &&
+        (chunks k reps names).all (· == want))
+
+/-- parse `<case> @ <blocks>` -/
+def pCaseBlocks : P (Case × List Block) := do
+  let c ← pCase
+  expect "@"
+  let bs ← rep (pBlock c.nodes.size) c.ops.length
+  let rest ← get
+  if rest.isEmpty then pure (c, bs) else failure
 
 /-- one request -> one answer line; `none` = unknown op / malformed -/
-def handle (_op : String) (_args : List String) : Option String := none
+def handle (op : String) (args : List String) : Option String :=
+  match op with
+  | "c11.hist" => do
+    let (c, rest) ← pCase.run args
+    if rest.isEmpty then pure (runHist c) else none
+  | "c11.holds.fresh" => do
+    let ((c, bs), _) ← pCaseBlocks.run args
+    pure (boolStr (holdsFresh c bs))
+  | "c11.holds.no_spurious" => do
+    let ((c, bs), _) ← pCaseBlocks.run args
+    pure (boolStr (holdsNoSpurious c bs))
+  | "c11.holds.version" => do
+    let ((c, bs), _) ← pCaseBlocks.run args
+    pure (boolStr (holdsVersion c bs))
+  | "c11.holds.deporder" => do
+    let (b, _) ← holdsDepOrder.run args
+    pure (boolStr b)
+  | _ => none
 
 end Driver.C11
 
